@@ -90,6 +90,52 @@ EDITS = [
     };
   }
   return {};'''),
+ ('ccl/rslang/src/StructuredData.cpp', 'tuple comparison: index loop from 0 with a while', '''    for (auto index = rslang::Typification::PR_START; index < Arity() + rslang::Typification::PR_START; ++index) {
+      if (const auto res = components.at(index).Compare(rhs.Component(index)); res != Comparison::EQUAL) {
+        return res;
+      }
+    }
+    return Comparison::EQUAL;''', '''    rslang::Index offset = 0;
+    auto verdict = Comparison::EQUAL;
+    while (offset < Arity() && verdict == Comparison::EQUAL) {
+      const auto index = static_cast<rslang::Index>(rslang::Typification::PR_START + offset);
+      verdict = components.at(index).Compare(rhs.Component(index));
+      ++offset;
+    }
+    return verdict;'''),
+ ('ccl/rslang/src/StructuredData.cpp', 'intersection: iterate over this and filter by rhs', '''  for (const auto& secondElement : rhs) {
+    if (this->Contains(secondElement)) {
+      result.ModifyB().AddElement(secondElement);
+    }
+  }
+  return result;
+}
+
+StructuredData SDSet::Diff''', '''  for (auto iter = begin(); iter != end(); ++iter) {
+    if (!rhs.Contains(*iter)) {
+      continue;
+    }
+    result.ModifyB().AddElement(*iter);
+  }
+  return result;
+}
+
+StructuredData SDSet::Diff'''),
+ ('ccl/rslang/src/SDImplementation.cpp', 'product iterator: indexed descending loop instead of reverse iterators', '''    auto index = size(componentIters) - 1;
+    for (auto iter = componentIters.rbegin(); iter != componentIters.rend(); ++iter, --index) {
+      if (IncrementComponent(*iter, index)) {
+        ++counter;
+        return *this;
+      }
+    }
+    isCompleted = true;''', '''    for (auto remaining = size(componentIters); remaining > 0; --remaining) {
+      const auto index = remaining - 1;
+      if (IncrementComponent(componentIters.at(index), index)) {
+        ++counter;
+        return *this;
+      }
+    }
+    isCompleted = true;'''),
 ]
 
 
